@@ -216,13 +216,13 @@ def main(argv):
         for n, a in per_sub.items():
             print("  %-28s cases=%-7d nontrivial=%-7d skipped=%-5d excluded=%d" % (
                 n, a["evaluations"], len(a["nt"]), sum(a["skipped"].values()), sum(a["excluded"].values())))
+        for h in harness_errors:
+            print("HARNESS-ERROR property=%s %s" % (pid, h))
         for l in vio_lines:
             print(l)
         if vio_lines:
             return 1
         if harness_errors:
-            for h in harness_errors:
-                print("HARNESS-ERROR property=%s %s" % (pid, h))
             return 2
         return 0
     finally:
